@@ -10,7 +10,7 @@ CORRESPONDENCE = ("Model/Transport.lean (sequential pool: acquire with NOOP prob
                   "silent peer (`stallAtEnd`, counter of reads that waited) vs SmtpTransport and tokio AsyncSmtpTransport with a timeout T "
                   "against a multi-connection scripted peer that goes silent at a chosen point")
 RULE = ("pool cases: the peer goes silent at every position of the dialogue (before the greeting, after EHLO, MAIL, each RCPT, DATA, "
-        "end-of-data, on the NOOP probe of a pooled connection), before a reply or in the middle of a reply line, or stops reading while a 16 MiB message is being written (wstall), T in {60,120,250} ms, "
+        "end-of-data, on the NOOP probe of a pooled connection; with implicit TLS and with required STARTTLS: no answer to the ClientHello, to STARTTLS, no greeting / no reply to EHLO, MAIL, end-of-data inside TLS, also on a connection whose timeout was configured with set_timeout; in the TCP connect, with and without a local address), before a reply or in the middle of a reply line, or stops reading while a 16 MiB message is being written (wstall), T in {60,120,250} ms, "
         "1..2 recipients, sync and tokio; the send after the stalled one goes to a responsive connection. Compared: result class of every "
         "send, every connection's transcript, and (oracle) the elapsed time against (waits+2)*T+1.5s and the error's is_timeout(). "
         "Non-trivial = a stall is reached; distinct = distinct case lines.")
@@ -60,6 +60,19 @@ def gen(tier, rng):
             cases.append(f"wstall\t{client}\t{t}\t16")
             # the stall is in the TCP connect itself (full accept queue, SYNs dropped)
             cases.append(f"cstall\t{client}\t{t}\t-")
+            # ... also for a connection of its own bound to a local address
+            cases.append(f"cstall\t{client}\t{t}\tl")
+    # the stall is around the TLS layer: implicit TLS (w) or required STARTTLS (r); no answer to the ClientHello (h), to
+    # STARTTLS (s), no greeting inside TLS (g), no answer to EHLO / MAIL / the end of data inside TLS (e, m, z); client `c` is
+    # a connection of its own whose timeout is configured after the set-up, with `set_timeout`
+    for t in ts:
+        for client in "sa":
+            for mode, ats in (("w", "hgemz"), ("r", "shemz")):
+                for at in ats:
+                    cases.append(f"tstall\t{client}\t{t}\t{mode}\t{at}")
+        for mode in "wr":
+            for at in "mz":
+                cases.append(f"tstall\tc\t{t}\t{mode}\t{at}")
     # no stall at all: must not be slowed down
     for client in "sa":
         cases.append(pool_case(client, 200, 1, False, 2, "a@b.c", ["x@y.z"], b"m\r\n", [happy(1) + [step(b"250 ok\r\n")] + happy(1)[2:]]))
@@ -68,12 +81,12 @@ def gen(tier, rng):
 
 def timing_dependent(case):
     # a real client against a real peer with read timeouts: a disagreement is re-run alone before it counts
-    return case.split("\t")[0] in ("pool", "wstall", "cstall", "client", "tls", "sched")
+    return case.split("\t")[0] in ("pool", "wstall", "cstall", "tstall", "client", "tls", "sched")
 
 
 def nontrivial(case):
     f = case.split("\t")
-    return f[0] in ("wstall", "cstall") or f[4] == "1"
+    return f[0] in ("wstall", "cstall", "tstall") or f[4] == "1"
 
 
 def shrinkable(case):
@@ -90,13 +103,16 @@ def distribution(cases):
         if f[0] == "wstall":
             d["blocked_write"] = d.get("blocked_write", 0) + 1
             continue
+        if f[0] == "tstall":
+            d["tls_stall_" + f[3] + f[4]] = d.get("tls_stall_" + f[3] + f[4], 0) + 1
+            continue
         for k in ("client_" + f[1], "T_" + f[2], "nsends_" + f[5]):
             d[k] = d.get(k, 0) + 1
     return d
 
 
 def _async_stall(f, o, v):
-    if f[0] == "wstall":
+    if f[0] in ("wstall", "tstall"):
         return f[1] == "a" and "send-blocked-far-beyond-the-timeout" in v
     return f[0] == "pool" and f[1] == "a" and f[4] == "1" and "send-blocked-far-beyond-the-timeout" in v
 
